@@ -37,6 +37,8 @@ var keyLikeWord = regexp.MustCompile(`^[A-Za-z0-9_]+([.\-][A-Za-z0-9_\-]+)*$`)
 var placeholderRE = regexp.MustCompile(`\{\{\s*([A-Za-z0-9_.\-]+)[^}]*\}\}`)
 
 func runC38(w *World, r *Report) {
+	defer c38Forwarding(w, r)
+
 	r.Rule("R-C38-1", "every constant key reaching a localization lookup has non-empty English text in the embedded message table", 1500)
 	r.Rule("R-C38-2", "every key of every non-English language exists in English and uses the same {{placeholder}} names", 3000)
 	r.Rule("R-C38-3", "every return value of NegotiateLanguage is \"\" or lies behind the true edge of isSupportedLanguage on that value", 2)
@@ -597,4 +599,84 @@ func constStr(info *types.Info, e ast.Expr) string {
 	}
 
 	return ""
+}
+
+// c38Forwarding: R-C38-4.  Every public lookup function of package i18n takes the substitution
+// values as a variadic map and hands them on to the function that does the work.  A call from such
+// a function to another one with the same variadic parameter type (a wrapper calling translate, or
+// translate calling itself for the English fallback) must pass the caller's own variadic parameter
+// on; a call that leaves it out returns the message with its {{placeholders}} unfilled.
+func c38Forwarding(w *World, r *Report) {
+	r.Rule("R-C38-7", "parameter forwarding in package i18n: a function with a variadic map parameter that calls a function with the same variadic parameter passes its own parameter on", 6)
+
+	ip := w.pkg("internal/i18n")
+	if ip == nil || w.prog == nil {
+		r.Anchor("R-C38-7", "package internal/i18n (SSA)")
+
+		return
+	}
+
+	variadicOf := func(fn *ssa.Function) *ssa.Parameter {
+		if fn == nil || !fn.Signature.Variadic() || len(fn.Params) == 0 {
+			return nil
+		}
+
+		p := fn.Params[len(fn.Params)-1]
+
+		sl, ok := p.Type().Underlying().(*types.Slice)
+		if !ok {
+			return nil
+		}
+
+		if _, isMap := sl.Elem().Underlying().(*types.Map); !isMap {
+			return nil
+		}
+
+		return p
+	}
+
+	n := 0
+
+	for _, fn := range w.srcFuncs(ip) {
+		own := variadicOf(fn)
+		if own == nil {
+			continue
+		}
+
+		count := map[string]int{}
+
+		allInstrs(fn, func(in ssa.Instruction) {
+			c, ok := in.(*ssa.Call)
+			if !ok {
+				return
+			}
+
+			cf := calleeFunction(c.Common())
+
+			cp := variadicOf(cf)
+			if cp == nil || !types.Identical(cp.Type(), own.Type()) {
+				return
+			}
+
+			n++
+
+			key := fnKey(fn) + "|forwards its values to " + fnKey(cf)
+			count[key]++
+
+			if k := count[key]; k > 1 {
+				key += "#" + sprintInt(k)
+			}
+
+			last := c.Call.Args[len(c.Call.Args)-1]
+			if resolveLocal(last) == ssa.Value(own) {
+				r.Discharge("R-C38-7", key, w.pos(in.Pos()), "")
+			} else {
+				r.Violate("R-C38-7", key, w.pos(in.Pos()), "the substitution values are not handed on: the text comes back with its {{placeholders}} unfilled whenever this path is taken (for instance a language that falls back to the English text)")
+			}
+		})
+	}
+
+	if n == 0 {
+		r.Anchor("R-C38-7", "forwarding calls in package i18n")
+	}
 }
